@@ -77,7 +77,7 @@ def show_type(t):
 
 def parse_type(s):
     s = s.strip()
-    if s in ("int", "float", "ratio", "bool", "unit"):
+    if s in ("int", "float", "ratio", "bool", "unit", "optfloat"):
         return s
     if s.startswith("list[") and s.endswith("]"):
         return ("list", parse_type(s[5:-1]))
@@ -113,6 +113,8 @@ def coq_type(t):
         return "bool"
     if t == "unit":
         return "unit"
+    if t == "optfloat":
+        return "option T"         # a list slot that holds None or a float
     if t[0] == "list":
         return "list %s" % paren_type(t[1])
     if t[0] == "fn":
@@ -129,7 +131,7 @@ def paren_type(t):
 
 # Coq keywords / constructors in scope that may not be used as (pattern) variables
 RESERVED = set("""left right S O Some None true false tt nil cons pair inl inr GOk GErr GCont GRet Z0 Zpos Zneg xH xI xO
-py_inf py_ninf eq_refl I Lt Gt Eq as at cofix else end exists exists2 fix for forall fun if IF in let match mod Prop return Set then
+py_inf py_ninf dist eq_refl I Lt Gt Eq as at cofix else end exists exists2 fix for forall fun if IF in let match mod Prop return Set then
 Type using where with do K T IndexError ValueError TypeError ZeroDivisionError GeomdlError OutOfFuel Qmake""".split())
 
 
@@ -262,6 +264,7 @@ class FunTrans(object):
         self.catching_zero_div = 0
         self.callee_raises = set()
         self.static_vals = dict(fspec.get("static_vals", {}))     # parameter -> the literal this variant is specialised to
+        self.abstract_used = set()
         self.local_fns = {}       # nested function name -> {"owned": [...]}
         self.outer_names = ()     # (nested functions) the variables of the enclosing function
         # a function that never updates a list in place may give a list a second name
@@ -337,6 +340,8 @@ class FunTrans(object):
 
     def const(self, node):
         v = node.value
+        if v is None:
+            return [], "None", "optfloat"       # only meaningful as a list element (a placeholder)
         if isinstance(v, bool):
             return [], ("true" if v else "false"), "bool"
         if isinstance(v, int):
@@ -375,7 +380,7 @@ class FunTrans(object):
                 fail(node, "a nested function that updates its argument in place may only be used in reduce(f, xs, fresh)")
             return [], mangle(node.id), env[node.id]
         fn = self.m.lookup_function(node.id)
-        if fn is not None and (fn.get("infinity") or fn.get("variants")):
+        if fn is not None and (fn.get("infinity") or fn.get("variants") or fn.get("abstract")):
             fail(node, "a function with infinity / static parameters used as a value")
         if fn is not None:
             return [], "(%s K)" % fn["coqname"], fn["fntype"]
@@ -412,6 +417,13 @@ class FunTrans(object):
         op = type(node.op).__name__
         if isinstance(tl, tuple) and tl[0] == "list" and isinstance(tr, tuple) and tr[0] == "list" and op == "Add":
             return b, "(%s ++ %s)" % (l, r), unify(tl, tr, node)
+        # an operand read from a list of None-or-float slots: arithmetic on None raises TypeError
+        if tl == "optfloat":
+            v = self.fresh()
+            b = b + ["do %s <- py_unopt %s ;;" % (v, l)]; l, tl = v, "float"
+        if tr == "optfloat":
+            v = self.fresh()
+            b = b + ["do %s <- py_unopt %s ;;" % (v, r)]; r, tr = v, "float"
         if tl == tr == "bool" and op in ("Add", "Sub"):
             # True / False as the ints 1 / 0 :  (a > b) - (a < b)
             return b, "(Z.b2z %s %s Z.b2z %s)" % (l, "+" if op == "Add" else "-", r), "int"
@@ -435,7 +447,11 @@ class FunTrans(object):
             fail(node, "integer operator %s not understood" % op)
         if "float" in (tl, tr):
             if "ratio" in (tl, tr):
-                fail(node, "mixing an int/int quotient with a float")
+                # an exact rational (int / int) next to a float: injected into the scalars, as float(a / b) is
+                if tl == "ratio":
+                    l, tl = "(oratio K %s)" % l, "float"
+                else:
+                    r, tr = "(oratio K %s)" % r, "float"
             l, r = self.coerce_operand(node.left, l, tl, node), self.coerce_operand(node.right, r, tr, node)
             fn = {"Add": "oadd", "Sub": "osub", "Mult": "omul", "Div": "odiv"}.get(op)
             if fn is None:
@@ -524,6 +540,8 @@ class FunTrans(object):
         return b, x, "bool"
 
     def e_IfExp(self, node, env):
+        if isinstance(node.test, ast.Name) and node.test.id in self.static_vals and node.test.id not in env:
+            return self.expr(node.body if self.static_vals[node.test.id] else node.orelse, env)
         bc, c, tc = self.expr(node.test, env)
         b1, x1, t1 = self.expr(node.body, env)
         b2, x2, t2 = self.expr(node.orelse, env)
@@ -717,6 +735,26 @@ class FunTrans(object):
                 fail(node, "keyword argument %r is not in the spec" % (key,))
             bd = self.record_kwdefault(key, node.args[1], env)
             return bd, "kw_" + key, self.kwparams[key]
+        ab = self.spec.get("abstract_calls", {})
+        if ab:
+            cname = None
+            if isinstance(f, ast.Attribute) and isinstance(f.value, ast.Name) and f.value.id not in env \
+                    and f.value.id in self.m.imported_mods:
+                cname = "%s.%s" % (self.m.imported_mods[f.value.id], f.attr)
+            if cname in ab:
+                # a callee SPEC leaves uninterpreted: it is a function PARAMETER of the generated function (the tie theorem
+                # holds for every such function)
+                pname, ftype = ab[cname]["param"], parse_type(ab[cname]["type"])
+                if node.keywords or len(node.args) != len(ftype[1]):
+                    fail(node, "call of the abstract function %s: arity" % cname)
+                b, xs = [], []
+                for a, t in zip(node.args, ftype[1]):
+                    ba, x, ta = self.expr(a, env)
+                    unify(ta, t, node); b += ba; xs.append(x)
+                v = self.fresh()
+                self.callee_raises |= set(EXC.values())
+                self.abstract_used.add(cname)
+                return b + ["do %s <- %s %s ;;" % (v, pname, " ".join(xs))], v, ftype[2]
         if isinstance(f, ast.Attribute) and isinstance(f.value, ast.Name) and f.value.id == "math" and "math" not in env \
                 and "math" in self.m.plain_imports:
             return self.math_call(node, env)
@@ -823,6 +861,8 @@ class FunTrans(object):
                 fail(node, "keyword argument %s has a computed default: give it explicitly" % k)
             else:
                 xs.append("(%s__default_%s K)" % (fn["coqname"], k))
+        if fn.get("abstract"):
+            fail(node, "call of a function with abstract callees (not supported)")
         if fn.get("infinity"):
             if not self.spec.get("infinity_params", False):
                 fail(node, "call of a function with infinity parameters from one without")
@@ -1008,7 +1048,23 @@ class FunTrans(object):
         return b, x, t          # values are immutable here: a copy is the same value
 
     # ---- trusted idioms
+    def is_float_of_int(self, n, env):
+        return isinstance(n, ast.Call) and isinstance(n.func, ast.Name) and n.func.id == "float" and "float" not in env \
+            and len(n.args) == 1 and not n.keywords
+
     def idiom(self, node, env):
+        # float(a) / float(b) for ints a, b, in a function SPEC marks "exact_int_quotients": the quotient a / b, carried as
+        # an exact rational like a / b itself (ZeroDivisionError for b == 0, as for float division by 0.0); needed where
+        # the source goes on with int(j * d) (compute_knot_vector2)
+        if self.spec.get("exact_int_quotients", False) and isinstance(node, ast.BinOp) and isinstance(node.op, ast.Div) \
+                and self.is_float_of_int(node.left, env) and self.is_float_of_int(node.right, env):
+            save = self.counter
+            bl, l, tl = self.expr(node.left.args[0], env)
+            br, r, tr = self.expr(node.right.args[0], env)
+            if resolve(tl) == "int" and resolve(tr) == "int":
+                v = self.fresh()
+                return bl + br + ["do %s <- zdiv_chk %s %s ;;" % (v, l, r)], v, "ratio"
+            self.counter = save
         # float('inf') / float('-inf'): no scalar of T; they become the parameters py_inf / py_ninf of the generated
         # function (only in the functions SPEC marks "infinity_params"; the tie theorems assume what the function needs of
         # them, e.g. that they compare above / below the data)
@@ -1240,6 +1296,10 @@ class FunTrans(object):
         et = resolve(curt[1])
         if et == "float" and resolve(t) == "int":
             x = self.coerce_float(x, t, s)
+        elif et == ("list", "optfloat") and resolve(t) == ("list", "float"):
+            x = "(map Some %s)" % x          # floats stored into None-or-float slots
+        elif et == "optfloat" and resolve(t) == "float":
+            x = "(Some %s)" % x
         else:
             unify(curt[1], t, s)
         # rebuild from the inside out
@@ -1382,9 +1442,16 @@ class FunTrans(object):
     # ---- if
     def static_isinstance(self, test, env):
         """isinstance(e, float|int|list) -> (binds of e, truth value) decided by the spec types, else None"""
+        if isinstance(test, ast.UnaryOp) and isinstance(test.op, ast.Not):
+            st = self.static_isinstance(test.operand, env)
+            return None if st is None else (st[0], not st[1])
         if isinstance(test, ast.Call) and isinstance(test.func, ast.Name) and test.func.id == "isinstance" \
-                and "isinstance" not in env and len(test.args) == 2 and not test.keywords \
-                and isinstance(test.args[1], ast.Name) and test.args[1].id in ("float", "int", "list"):
+                and "isinstance" not in env and len(test.args) == 2 and not test.keywords:
+            cls = test.args[1]
+            names = [cls] if isinstance(cls, ast.Name) else list(cls.elts) if isinstance(cls, ast.Tuple) else None
+            if names is None or not all(isinstance(c, ast.Name) and c.id in ("float", "int", "list", "tuple") and c.id not in env
+                                        for c in names):
+                return None
             b, x, t = self.expr(test.args[0], env)
             t = resolve(t)
             if isinstance(t, TVar):
@@ -1392,7 +1459,8 @@ class FunTrans(object):
             kind = "list" if isinstance(t, tuple) and t[0] == "list" else t
             if kind not in ("float", "int", "list"):
                 fail(test, "isinstance on a %s" % show_type(t))
-            return b, kind == test.args[1].id
+            # a Python list or tuple of the caller is a `list` here
+            return b, any(kind == c.id or (kind == "list" and c.id == "tuple") for c in names)
         return None
 
     def s_If(self, s, rest, env, ctx, ind):
@@ -1725,6 +1793,13 @@ class FunTrans(object):
         kargs = "".join(" (kw_%s : %s)" % (k, coq_type(self.kwparams[k])) for k in kworder)
         if self.spec.get("infinity_params", False):
             kargs += " (py_inf : T) (py_ninf : T)"
+        abstract = []
+        for cname in sorted(self.spec.get("abstract_calls", {})):
+            a_ = self.spec["abstract_calls"][cname]
+            if cname not in self.abstract_used:
+                fail(self.fdef, "the abstract callee %s of the spec is never called" % cname)
+            kargs += " (%s : %s)" % (a_["param"], coq_type(parse_type(a_["type"])))
+            abstract.append(a_["param"])
         lines.append("Definition %s {T : Type} (K : ops T) %s%s : gres %s :=" % (coqname, args, kargs, paren_type(rt)))
         body[-1] = body[-1] + "."
         lines += body
@@ -1743,6 +1818,7 @@ class FunTrans(object):
                 "raises": sorted(raises_of_text(body) | self.callee_raises),
                 "kwnodefault": [k for k in kworder if self.kwdefaults[k] is None],
                 "defaults": defaults, "rtype": rt, "all_params": self.all_params, "static_defaults": self.static_defaults,
+                "abstract": abstract,
                 "infinity": bool(self.spec.get("infinity_params", False)),
                 "fntype": ("fn", tuple(t for _, t in self.params) + tuple(self.kwparams[k] for k in kworder), rt)}
         return "\n".join(lines), info
@@ -1756,6 +1832,8 @@ def raises_of_text(lines):
         out.add("IndexError")
     if "zfact_chk " in txt:
         out.add("ValueError")
+    if "py_unopt " in txt:
+        out.add("TypeError")
     if "zdiv_chk " in txt or "odiv_chk " in txt:
         out.add("ZeroDivisionError")
     for k in set(EXC.values()):
@@ -1985,7 +2063,7 @@ SPEC = {
     # (LinalgInternal, Linalg, Knotvector, Helpers) are never regenerated with a different text, so that everything
     # compiled against them stays valid; later additions live in their own generated files ("pymodule" = the Python module
     # the functions are reported under by --check).
-    "order": ["_linalg", "linalg", "knotvector", "helpers", "linalg/geom", "_voxelize", "utilities", "linalg/mat"],
+    "order": ["_linalg", "linalg", "knotvector", "helpers", "linalg/geom", "_voxelize", "utilities", "linalg/mat", "helpers/b", "fitting"],
     "modules": {
         "_linalg": {"file": "geomdl/_linalg.py", "coq_module": "LinalgInternal", "imports": [], "functions": [
             {"name": "doolittle", "params": {"matrix_a": MAT}, "returns": "tuple[%s,%s]" % (MAT, MAT)},
@@ -2089,7 +2167,32 @@ SPEC = {
             {"name": "matrix_inverse", "params": {"m": MAT}, "returns": MAT},
             {"name": "matrix_determinant", "params": {"m": MAT}, "returns": "float"},
             {"name": "lu_factor", "params": {"matrix_a": MAT, "b": MAT}, "returns": MAT},
+            # @lru_cache: the undecorated function; math.factorial -> zfact_chk, float(int / int) -> oratio
             {"name": "binomial_coefficient", "params": {"k": "int", "i": "int"}, "returns": "float"},
+        ]},
+        "helpers/b": {"file": "geomdl/helpers.py", "pymodule": "helpers", "coq_module": "HelpersB",
+                      "requires": ["PreludeExt"], "imports": ["linalg", "linalg/mat", "helpers"], "functions": [
+            {"name": "degree_elevation", "params": {"degree": "int", "ctrlpts": MAT},
+             "kwargs": {"num": "int", "check_num": "bool"}, "returns": MAT},
+            # the result is filled with None placeholders (row k keeps k of them): its slots have type optfloat = option T
+            {"name": "curve_deriv_cpts",
+             "params": {"dim": "int", "degree": "int", "kv": "list[float]", "cpts": MAT, "rs": "list[int]", "deriv_order": "int"},
+             "returns": "list[list[list[optfloat]]]"},
+        ]},
+        "fitting": {"file": "geomdl/fitting.py", "coq_module": "Fitting", "requires": ["PreludeExt"],
+                    "imports": ["linalg"], "functions": [
+            {"name": "compute_knot_vector", "params": {"degree": "int", "num_points": "int", "params": "list[float]"},
+             "returns": "list[float]"},
+            # d = float(num_dpts) / float(num_cpts - degree) is carried as the exact rational (int(j * d), alpha = j * d - i)
+            {"name": "compute_knot_vector2",
+             "params": {"degree": "int", "num_dpts": "int", "num_cpts": "int", "params": "list[float]"},
+             "returns": "list[float]", "exact_int_quotients": True},
+            # abstract_calls: linalg.point_distance needs a square root; it is left uninterpreted (the parameter `dist`
+            # of the generated function).  static: only centripetal = False (the other branch takes math.sqrt).
+            # checked_div: d = 0 (all points equal) raises ZeroDivisionError <-> the model's Crash.
+            {"name": "compute_params_curve", "params": {"points": MAT}, "static": {"centripetal": [False]},
+             "returns": "list[float]", "checked_div": True,
+             "abstract_calls": {"linalg.point_distance": {"param": "dist", "type": "fn(list[float],list[float])->float"}}},
         ]},
         "utilities": {"file": "geomdl/utilities.py", "coq_module": "Utilities", "requires": ["PreludeExt"],
                       "imports": [], "functions": [
